@@ -6,6 +6,15 @@ import subprocess
 
 VERIF = os.path.dirname(os.path.dirname(os.path.abspath(__file__)))
 LEVELS = {
+    "C02": ("theorems: one unknown per internal interface, row pairs exactly for the junctions whose equations received >=3 (<4 "
+            "with ignore_four) coefficient pairs at rows 2k/2k+1, placement of versors by eid_from_vertex (under H_col), the "
+            "stated tangent orientation over R, the code's sign-forcing rule proved equal to it under H_quad and refuted "
+            "otherwise (known finding D1); matrix tied to fmatrix/edge code by exact rational correspondence; analytic-tangent oracle",
+            "4/C02", "Coq theorems on a Gallina model + differential correspondence + analytic oracle"),
+    "C05": ("kernel-checked sufficiency of slackened KKT conditions for non-negative least squares (all dimensions, all "
+            "competitors) and soundness of an executable integer certificate checker; every captured solve is certified by "
+            "evaluating that checker in Coq on the exact doubles; augmentation / stripping tied to the code by correspondence",
+            "4/C05", "Coq theorem (KKT sufficiency) + verified certificate checker evaluated per solve"),
     "C11": ("theorems for every interface / ne / admissible index function: short interfaces unchanged, long ones get ne+1 points at "
             "strictly increasing positions retaining both ends, idempotence, ends survive, surviving vertices keep id and position, "
             "cycles become ordered subsequences; the binary64 index int(len/ne*i) is proved admissible on len<=1500, ne<=12 by "
